@@ -25,14 +25,20 @@ TEXTS = ["plain", "  surrounded by space \n", "<tag> & \"quote\"", "ünï", "yes
          "two  blanks\tand a\nline break, NEL \x85 and LS \u2028 inside"]
 
 
+REPOS = [None, "file:///nonexistent/terminologies/repoA.xml", None, "file:///nonexistent/terminologies/repoB.xml"]
+INCLUDES = [None, None, "file:///nonexistent/other.xml#/sec/sub", None, None]
+
+
 def mk(variant, salt=0):
     def f(h, k, st):
         n = (int(h[1:]) if h[1:].isdigit() else 0) + variant + salt
         if k == "doc":
-            return odml.Document(author=TEXTS[(n % 9) if n % 9 != 6 else 0], version=TEXTS[(n + 1) % 9], date=[None, dt.date(2020, 1, 1 + n % 27), dt.date(321, 2, 3)][n % 3])
+            return odml.Document(author=TEXTS[(n % 9) if n % 9 != 6 else 0], version=TEXTS[(n + 1) % 9], date=[None, dt.date(2020, 1, 1 + n % 27), dt.date(321, 2, 3)][n % 3],
+                                 repository=REPOS[n % 4])
         if k == "sec":
             sec = odml.Section(name=st["name"][h], type=["t", "a/b", " spaced type "][n % 3], definition=TEXTS[n % 9],
-                               reference=TEXTS[(n + 3) % 9], sec_cardinality=CARDS[n % 9], prop_cardinality=CARDS[(n + 2) % 9])
+                               reference=TEXTS[(n + 3) % 9], sec_cardinality=CARDS[n % 9], prop_cardinality=CARDS[(n + 2) % 9],
+                               repository=REPOS[(n + 1) % 4], include=INCLUDES[n % 5])
             if n % 7 == 4:
                 del sec.definition          # the one deleter of the public API: the attribute is gone, not None
             return sec
@@ -232,9 +238,11 @@ def foreign_xml(doc):
         if v is not None:
             ET.SubElement(parent, tag).text = _txt(v)
     put(root, "id", doc.id); put(root, "author", doc.author); put(root, "version", doc.version); put(root, "date", doc.date)
+    put(root, "repository", doc.repository)
     def sec(parent, s):
         e = ET.SubElement(parent, "section")
         put(e, "id", s.id); put(e, "name", s.name); put(e, "type", s.type); put(e, "definition", getattr(s, "definition", None)); put(e, "reference", s.reference)
+        put(e, "repository", s._repository); put(e, "include", s.include)
         if s.sec_cardinality: put(e, "sec_cardinality", _card(s.sec_cardinality))
         if s.prop_cardinality: put(e, "prop_cardinality", _card(s.prop_cardinality))
         for p in s.properties:
@@ -256,8 +264,9 @@ def foreign_dict(doc):
         return str(v) if isinstance(v, (dt.datetime, dt.date, dt.time)) else v
     def sec(s):
         e = {"id": s.id, "name": s.name, "type": s.type}
-        for k in ("definition", "reference"):
+        for k in ("definition", "reference", "include"):
             if getattr(s, k, None) is not None: e[k] = getattr(s, k)
+        if s._repository is not None: e["repository"] = s._repository          # its own, not an inherited one
         if s.sec_cardinality: e["sec_cardinality"] = list(s.sec_cardinality)
         if s.prop_cardinality: e["prop_cardinality"] = list(s.prop_cardinality)
         props = []
@@ -278,7 +287,7 @@ def foreign_dict(doc):
         if subs: e["sections"] = subs
         return e
     dd = {"id": doc.id}
-    for k in ("author", "version"):
+    for k in ("author", "version", "repository"):
         if getattr(doc, k) is not None: dd[k] = getattr(doc, k)
     if doc.date is not None: dd["date"] = str(doc.date)
     dd["sections"] = [sec(s) for s in doc.sections]
